@@ -2,7 +2,9 @@ package core
 
 import (
 	"fmt"
+	"runtime"
 	"runtime/debug"
+	"strings"
 	"sync"
 	"sync/atomic"
 )
@@ -104,6 +106,8 @@ type task struct {
 	panicked bool
 	panicVal string
 
+	goid string // runtime goroutine id, for the blocked-state test of speculate
+
 	// self-probe command and answer (see selfProbe)
 	cmdProbe bool
 	probeOK  bool
@@ -160,6 +164,9 @@ type SchedConfig struct {
 	PCTHorizon int
 	HerdPoint  int // StratHerd: point id to gather tasks at
 	StepCap    int
+	// Speculate marks a run in which the scheduler once releases a task that
+	// is parked in front of a HELD lock (see speculate).
+	Speculate bool
 }
 
 // DrawSchedConfig draws a scheduling strategy (swarm style: one per run).
@@ -168,6 +175,7 @@ func DrawSchedConfig(ch *Chooser, horizon int) SchedConfig {
 	c.Strategy = ch.Intn("sched.strategy", numStrats)
 	c.StickyPct = []int{50, 80, 95}[ch.Intn("sched.stickypct", 3)]
 	c.PCTDepth = 1 + ch.Intn("sched.pctdepth", 3)
+	c.Speculate = ch.Intn("sched.speculate", 50) == 49
 	c.HerdPoint = []int{PStorageMiss, PStorageLock, PFileLock, PFileSeekRead, PRuleCompile, PPoolGet, PStorageRLock, PLookupRetrieved}[ch.Intn("sched.herdpoint", 8)]
 	return c
 }
@@ -181,15 +189,22 @@ type Probes struct {
 	PoolHandoff        int // a pooled request object was seen by two different tasks
 	Preemptions        int // scheduling steps that switched task while the previous one was still enabled
 	MaxEnabled         int
+	SpecPassed         int // a task released in front of a held lock did NOT block: the code made a non-blocking attempt
 	TrackingCorrected  int // tracking said "held" but the real lock was free (code unlocks earlier than its hooks say)
 	InFlightAtFault    int
 }
 
 // RunResult is what a scheduled execution produced.
 type RunResult struct {
-	Steps       int
-	Deadlock    bool
-	StepCap     bool
+	Steps    int
+	Deadlock bool
+	StepCap  bool
+	// SpecBlocked: a speculative release blocked for real (what intact code
+	// does); the run was abandoned and must be discarded.
+	SpecBlocked bool
+	// SpecSkipped: the run is a speculative one but this mode cannot
+	// speculate; it was not executed.
+	SpecSkipped bool
 	Panics      []string // "task N: value\nstack"
 	TraceHash   uint64
 	Trace       []Event
@@ -218,6 +233,10 @@ type Sched struct {
 	cur    *task
 	inTask bool
 	step   int
+	// freeRun turns every hook into a no-op: used to let the tasks of an
+	// abandoned run finish on their own so that nothing is leaked
+	freeRun  bool
+	specDone bool
 
 	// lock tracking (LockTrack)
 	mutexHeld map[any]int // obj -> task id
@@ -241,7 +260,7 @@ func (s *Sched) Hooks() (yield func(string, any, int64), note func(string, any))
 
 //go:norace
 func (s *Sched) yieldHook(point string, obj any, n int64) {
-	if !s.inTask {
+	if !s.inTask || s.freeRun {
 		return
 	}
 	t := s.cur
@@ -249,7 +268,7 @@ func (s *Sched) yieldHook(point string, obj any, n int64) {
 	s.Gate.Notify()
 	for {
 		s.Gate.Park(t.id)
-		if !t.cmdProbe {
+		if !t.cmdProbe || s.freeRun {
 			return
 		}
 		t.cmdProbe = false
@@ -260,7 +279,7 @@ func (s *Sched) yieldHook(point string, obj any, n int64) {
 
 //go:norace
 func (s *Sched) noteHook(point string, obj any) {
-	if !s.inTask {
+	if !s.inTask || s.freeRun {
 		return
 	}
 	t := s.cur
@@ -322,6 +341,7 @@ func (s *Sched) Run(bodies []func(t *TaskCtx)) *RunResult {
 		s.tasks[i] = t
 		wg.Add(1)
 		go func() {
+			t.goid = curGoid()
 			s.Gate.Park(t.id)
 			defer func() {
 				s.taskExit(t, recover())
@@ -370,10 +390,19 @@ func (s *Sched) Run(bodies []func(t *TaskCtx)) *RunResult {
 	unfinished := n
 	var last *task
 	enabled := make([]*task, 0, n)
+	var lockWait []*task
 	step := 0
+	if s.Cfg.Speculate && !s.canSpeculate() {
+		// hand the never-started tasks a free run so that they end
+		s.res.SpecSkipped = true
+		s.abandon(unfinished, nil)
+		wg.Wait()
+		return &s.res
+	}
 	for unfinished > 0 {
 		Heartbeat.Add(1)
 		enabled = enabled[:0]
+		lockWait = lockWait[:0]
 		inflight := 0
 		// The running task first, then ascending ids: choice 0 = "do not
 		// preempt", which is what zeroing a choice means to the shrinker.
@@ -393,6 +422,7 @@ func (s *Sched) Run(bodies []func(t *TaskCtx)) *RunResult {
 			if s.guard(t) {
 				enabled = append(enabled, t)
 			} else {
+				lockWait = append(lockWait, t)
 				switch t.pid {
 				case PFileLock:
 					s.res.Probes.SeekReadContended++
@@ -423,6 +453,39 @@ func (s *Sched) Run(bodies []func(t *TaskCtx)) *RunResult {
 		}
 		s.res.StateHashes = append(s.res.StateHashes, sh)
 
+		if s.Cfg.Speculate && !s.specDone && len(lockWait) > 0 && s.Ch.Intn("spec.now", 3) == 2 {
+			// once per speculative run: release a task although the lock
+			// in front of it is held
+			s.specDone = true
+			t := lockWait[s.Ch.Intn("spec.pick", len(lockWait))]
+			if !s.speculate(t) {
+				s.res.SpecBlocked = true
+				s.abandon(unfinished, t)
+				wg.Wait()
+				s.res.Steps = step
+				return &s.res
+			}
+			s.res.Probes.SpecPassed++
+			// it did not block: from here on it is an ordinary step of t
+			// (the lock it skipped is somebody else's: no acquire)
+			point, obj, nval, notes, done := s.readMailbox(t)
+			_ = obj
+			_ = nval
+			for _, nt := range notes {
+				s.applyNote(t, nt)
+			}
+			t.pid = pointID(point)
+			mix(uint64(t.id) | uint64(t.pid)<<8 | 0xee<<16)
+			if done {
+				unfinished--
+				if t.panicked {
+					s.res.Panics = append(s.res.Panics, fmt.Sprintf("task %d: %s", t.id, t.panicVal))
+				}
+			}
+			last = t
+			step++
+			continue
+		}
 		t := s.pick(enabled, last, step)
 		if last != nil && t != last && len(enabled) > 0 && enabled[0] == last {
 			s.res.Probes.Preemptions++
@@ -697,4 +760,107 @@ func (s *Sched) pick(enabled []*task, last *task, step int) *task {
 	default:
 		return enabled[s.Ch.Intn("sched.pick", k)]
 	}
+}
+
+// canSpeculate: the blocked-state test below is only reliable with the
+// channel gate on a single P without the race detector.
+func (s *Sched) canSpeculate() bool {
+	_, ok := s.Gate.(*ChanGate)
+	return ok && s.LockMode == LockProbe && runtime.GOMAXPROCS(0) == 1
+}
+
+func curGoid() string {
+	var buf [64]byte
+	n := runtime.Stack(buf[:], false)
+	f := strings.Fields(string(buf[:n]))
+	if len(f) >= 2 {
+		return f[1]
+	}
+	return ""
+}
+
+// goroutineState returns the bracketed wait state of goroutine id from a
+// full stack dump, e.g. "sync.Mutex.Lock", "chan send", "runnable".
+func goroutineState(id string) string {
+	buf := make([]byte, 1<<16)
+	for {
+		n := runtime.Stack(buf, true)
+		if n < len(buf) {
+			buf = buf[:n]
+			break
+		}
+		buf = make([]byte, 2*len(buf))
+	}
+	hdr := "goroutine " + id + " ["
+	i := strings.Index(string(buf), hdr)
+	if i < 0 {
+		return ""
+	}
+	rest := string(buf[i+len(hdr):])
+	j := strings.IndexByte(rest, ']')
+	if j < 0 {
+		return ""
+	}
+	return rest[:j]
+}
+
+// speculate releases t although the lock it is parked in front of is held by
+// a parked task.  The scheduler normally never does that, because a blocking
+// Lock would then block for ever; the price is that a NON-blocking attempt
+// (TryLock: "skip the cache if it is busy") is never seen to fail.  Here the
+// task is released anyway and the scheduler yields the only P to it
+// (GOMAXPROCS is 1): when control comes back the task has either parked at
+// its next yield point - it did not block, the run goes on - or it is blocked
+// in the lock, which the runtime's own goroutine state says reliably.  In the
+// latter case (what intact code does) the run is abandoned: all hooks become
+// no-ops, every task runs to completion on its own, nothing is leaked, and
+// the run is discarded - never reported.
+func (s *Sched) speculate(t *task) bool {
+	g := s.Gate.(*ChanGate)
+	s.cur = t
+	s.inTask = true
+	g.task[t.id] <- struct{}{}
+	for i := 0; i < 64; i++ {
+		select {
+		case <-g.sched:
+			s.inTask = false
+			return true
+		default:
+		}
+		runtime.Gosched()
+		select {
+		case <-g.sched:
+			s.inTask = false
+			return true
+		default:
+		}
+		st := goroutineState(t.goid)
+		switch {
+		case strings.HasPrefix(st, "sync.") || strings.HasPrefix(st, "semacquire"):
+			return false
+		case strings.HasPrefix(st, "chan send"):
+			// about to notify: the next select gets it
+		}
+	}
+	return false
+}
+
+// abandon lets every unfinished task run to completion with all hooks
+// disabled and consumes their exit notifications.  blocked is the task that
+// sits in a real lock (it needs no wake-up), or nil.
+func (s *Sched) abandon(unfinished int, blocked *task) {
+	s.freeRun = true
+	s.inTask = true
+	for _, t := range s.tasks {
+		if t.done || t == blocked {
+			continue
+		}
+		// every other task is parked in, or on its way into, Park: a
+		// blocking wake-up reaches it either way
+		s.Gate.Wake(t.id)
+	}
+	for i := 0; i < unfinished; i++ {
+		s.Gate.WaitNotify()
+	}
+	s.inTask = false
 }
